@@ -186,10 +186,9 @@ func (eval Evaluator) PartialTracesSum(ctIn *Ciphertext, offset, n int, opOut *C
 	}
 
 	if n == 1 {
-		if ctIn != opOut {
-			opOut.Value[0].CopyLvl(levelQ, ctIn.Value[0])
-			opOut.Value[1].CopyLvl(levelQ, ctIn.Value[1])
-		}
+		// ctInNTT rather than ctIn: the output is brought back out of the NTT domain below
+		opOut.Value[0].CopyLvl(levelQ, ctInNTT.Value[0])
+		opOut.Value[1].CopyLvl(levelQ, ctInNTT.Value[1])
 	} else {
 
 		// BuffQP[0:2] are used by AutomorphismHoistedLazy
